@@ -5,7 +5,10 @@ C13  Remote HTTP and command caches store complete artifacts or nothing.
 
 Status on the pinned tree:
 * a Retrieve that fails partway — transport cut, damaged stream, entry with a short body, retrieve command exiting
-  non-zero — is a miss, for both caches (full);
+  non-zero — is a miss, for both caches.  In the model this is how `httpRetrieve` / `cmdRetrieve` / `readToks` are
+  DEFINED, so the `C13_retrieve_…` theorems are one-line consequences; what ties them to the code is `FactsOK` —
+  one fact per return statement of `readTar`, the 404 / non-200 arms, the `tarOk && exit status` conjunction — and
+  the correspondence runs (body cut at 5 / 30 / 60 %, short entries, failing retrieve commands);
 * with no fault a Store followed by a Retrieve restores every entry (both caches);
 * STORE SIDE, HTTP: `write` only logs a failed output, goes on, and closes gzip, tar and the pipe normally, so the
   request body ends cleanly and is committed.  When the failed output had vanished (`Lstat` error, nothing written
@@ -15,13 +18,15 @@ Status on the pinned tree:
   but not read, the header is out, the body is short, the writer is stuck, and the later Retrieve is a miss:
   `C13_http_partial`.  Were the error passed to the pipe (`CloseWithError`), the full statement would
   hold: `C13_http_if_error_propagates`.
-* STORE SIDE, COMMAND: the writer cancels (kills) the command, stops, and then closes its pipe.  What is left
-  depends on the user's command and on a race.  `cat > $CACHE_KEY` — the form used by the repository's own tests —
-  keeps whatever arrived, and a stream that stops at an entry boundary reads as a complete archive:
-  `C13_cmd_witness`.  A command that commits only on success leaves nothing IF the kill lands before the command
-  sees end-of-input (`C13_cmd_atomic_if_kill_wins`); the kill is asynchronous and the pipe is closed right after
-  `cancel()`, so it can lose, and then the command commits an archive that stops at the failed output:
-  `C13_cmd_atomic_race_witness` (observed on the real code under load, not reproducible at will).
+* STORE SIDE, COMMAND: the writer cancels (kills) the command and returns — and its deferred `tw.Close()` and
+  `w.Close()` then FINISH the archive (end marker, end-of-input).  The kill is asynchronous, so the command usually
+  receives a well-formed archive that stops at the failed output.  `cat > $CACHE_KEY` — the form used by the
+  repository's own tests — keeps it: `C13_cmd_witness`.  A command that commits only on success leaves nothing IF
+  the kill lands before it sees end-of-input (`C13_cmd_atomic_if_kill_wins`); when the kill loses it commits that
+  archive: `C13_cmd_atomic_race_witness` (observed on the real code under load, not reproducible at will).
+  What saves every OTHER partial leftover: the command cache's reader needs tar's end marker, because it never sees
+  a real end-of-input (`C13_cmd_no_marker_is_miss`) — so a prefix cut anywhere, even at an entry boundary, and
+  whatever a store command that failed by itself wrote, is a miss (`C13_cmd_command_failure`).
 -/
 namespace PlzVerif.Props.C13
 open PlzVerif.RemoteCache PlzVerif.Generated
@@ -32,8 +37,17 @@ def httpPropagates : Bool := C13.httpOnWalkError.contains "close-with-error"
 
 def FactsOK : Bool :=
   C13.storeFileOrder == ["lstat", "header", "open", "copy"] &&
-  C13.readTarEofIsHit && C13.readTarErrorIsMiss && C13.httpNotFoundIsMiss && C13.httpNon200IsError &&
+  -- every way out of readTar: clean end of input is a hit, every error arm is a miss
+  C13.readTarReturns == ["next-eof -> true, nil", "next-error -> false, err", "mkdirall -> false, err",
+    "mkdirall -> false, err", "open -> false, err", "copy -> false, err", "close -> false, err",
+    "symlink -> false, err"] &&
+  C13.readTarLoopLeftOnlyByReturn &&
+  C13.httpNotFoundIsMiss && C13.httpNon200IsError &&
   C13.cmdOnWalkError == ["cancel", "return"] && C13.cmdStoreCancellable && C13.cmdRetrieveAndsExitStatus &&
+  -- why the command cache's reader needs the end marker
+  C13.cmdRetrieveInputNeverEndsCleanly &&
+  -- the streams are finished by closing tar, (gzip,) and the pipe, innermost last
+  C13.httpDeferred == ["pipe.Close", "gzip.Close", "tar.Close"] && C13.cmdDeferred == ["pipe.Close", "tar.Close"] &&
   (C13.httpClosesPipeNormally || httpPropagates)
 
 theorem C13_facts_ok : FactsOK = true := by decide
@@ -50,15 +64,19 @@ theorem C13_retrieve_transport_fault_is_miss (stored : Option (List Tok)) : http
 
 /-- A stored stream with a short entry is a miss (the entries before it have been written to plz-out, but the
     result is a miss and the target is rebuilt). -/
-theorem C13_retrieve_short_entry_is_miss (ts : List Tok) (t : Tok) (ht : t ∈ ts) (hf : t.full = false) (b : Bool) :
-    httpRetrieve (some ts) b = .miss ∧ cmdRetrieve (some ts) b = .miss := by
+theorem C13_retrieve_short_entry_is_miss (ts : List Tok) (t : Tok) (ht : t ∈ ts) (hf : t.full = false) (b m : Bool) :
+    httpRetrieve (some ts) b = .miss ∧ cmdRetrieve (some ⟨ts, m⟩) b = .miss := by
   have : (ts.all (·.full)) = false := by
     rw [List.all_eq_false]; exact ⟨t, ht, by simp [hf]⟩
-  cases b <;> simp [httpRetrieve, cmdRetrieve, readToks, this]
+  cases b <;> cases m <;> simp [httpRetrieve, cmdRetrieve, readToks, this]
+
+/-- Command cache: without tar's end marker there is no hit, however complete the entries are. -/
+theorem C13_cmd_no_marker_is_miss (ts : List Tok) (b : Bool) : cmdRetrieve (some ⟨ts, false⟩) b = .miss := by
+  simp [cmdRetrieve]
 
 /-- A retrieve command that exits non-zero is a miss, whatever it printed. -/
-theorem C13_retrieve_command_failure_is_miss (stored : Option (List Tok)) : cmdRetrieve stored false = .miss := by
-  cases stored <;> rfl
+theorem C13_retrieve_command_failure_is_miss (stored : Option Stored) : cmdRetrieve stored false = .miss := by
+  cases stored <;> simp [cmdRetrieve]
 
 /-- Nothing stored (404 / no file under the key) is a miss. -/
 theorem C13_retrieve_absent_is_miss (b : Bool) : httpRetrieve none b = .miss ∧ cmdRetrieve none b = .miss := ⟨rfl, rfl⟩
@@ -72,10 +90,10 @@ theorem C13_http_roundtrip (outs : List (List Src)) (h : anyFault outs = false) 
     httpRetrieve, if_true, List.nil_append]
   simp [readToks, Function.comp_def]
 
-theorem C13_cmd_roundtrip (k : CmdKind) (outs : List (List Src)) (h : anyFault outs = false) (n : Nat) (c w : Bool) :
-    cmdRetrieve (cmdStored k outs n c w) true = .hit (allEnts outs) := by
+theorem C13_cmd_roundtrip (k : CmdKind) (outs : List (List Src)) (h : anyFault outs = false) (n : Nat) (c m w : Bool) :
+    cmdRetrieve (cmdStored k outs false n c m w) true = .hit (allEnts outs) := by
   have hw := httpWrite_clean false outs ⟨[], false⟩ rfl ((anyFault_false_iff outs).mp h)
-  simp only [cmdStored, cmdWrite, hw, Bool.false_eq_true, if_false, cmdRetrieve, if_true, List.nil_append]
+  simp only [cmdStored, cmdWrite, hw, Bool.false_eq_true, if_false, cmdRetrieve, List.nil_append, Bool.or_self]
   simp [readToks, Function.comp_def]
 
 /-! ## Store faults, HTTP -/
@@ -135,47 +153,64 @@ theorem C13_http_store_transport_fault (outs : List (List Src)) (b : Bool) :
 
 /-- A store command that commits only when it runs to the end leaves nothing after any read fault — provided the
     kill reaches it before it sees end-of-input. -/
-theorem C13_cmd_atomic_if_kill_wins (outs : List (List Src)) (h : anyFault outs = true) (n : Nat) (c b : Bool) :
-    cmdRetrieve (cmdStored .atomic outs n c true) b = .miss := by
+theorem C13_cmd_atomic_if_kill_wins (outs : List (List Src)) (h : anyFault outs = true) (f : Bool) (n : Nat) (c m b : Bool) :
+    cmdRetrieve (cmdStored .atomic outs f n c m true) b = .miss := by
   have hf := httpWrite_fault false outs ⟨[], false⟩ h
   simp [cmdStored, cmdWrite, hf, cmdRetrieve]
 
 /-- FULL STATEMENT FAILS even for a commit-on-success command when the kill loses the race: outputs a, b, c; c has
-    vanished; the writer cancels and closes the pipe; the command reads to the end, exits 0 and commits.  The later
-    Retrieve is a HIT restoring a and b. -/
+    vanished; the writer cancels, finishes the archive and closes the pipe; the command reads to the end, exits 0
+    and commits.  The later Retrieve is a HIT restoring a and b. -/
 theorem C13_cmd_atomic_race_witness :
     ∃ (outs : List (List Src)) (restored : List Ent), anyFault outs = true ∧
-      cmdRetrieve (cmdStored .atomic outs 0 false false) true = .hit restored ∧ restored ≠ allEnts outs :=
+      cmdRetrieve (cmdStored .atomic outs false 0 false false false) true = .hit restored ∧ restored ≠ allEnts outs :=
   ⟨[[.ok ⟨[97], 0, [1]⟩], [.ok ⟨[98], 0, [2]⟩], [.vanished ⟨[99], 0, [3]⟩]],
    [⟨[97], 0, [1]⟩, ⟨[98], 0, [2]⟩], by decide, by decide, by decide⟩
 
-/-- FULL STATEMENT FAILS for `cat > $CACHE_KEY`: outputs a, b, c; c has vanished; both earlier entries got through
-    before the kill.  The file under the key ends at an entry boundary, which the tar reader takes for the end of the
-    archive: the later Retrieve is a HIT restoring a and b. -/
+/-- FULL STATEMENT FAILS for `cat > $CACHE_KEY`: outputs a, b, c; c has vanished; both earlier entries and the end
+    marker written by the deferred `tw.Close()` got through before the kill.  The file under the key is a well-formed
+    archive of a and b: the later Retrieve is a HIT. -/
 theorem C13_cmd_witness :
     ∃ (outs : List (List Src)) (arrived : Nat) (restored : List Ent), anyFault outs = true ∧
-      cmdRetrieve (cmdStored .naive outs arrived false true) true = .hit restored ∧ restored ≠ allEnts outs :=
+      cmdRetrieve (cmdStored .naive outs false arrived false true true) true = .hit restored ∧ restored ≠ allEnts outs :=
   ⟨[[.ok ⟨[97], 0, [1]⟩], [.ok ⟨[98], 0, [2]⟩], [.vanished ⟨[99], 0, [3]⟩]], 2,
    [⟨[97], 0, [1]⟩, ⟨[98], 0, [2]⟩], by decide, by decide, by decide⟩
 
-/-- … whereas a file cut in the middle of an entry is a miss. -/
-theorem C13_cmd_naive_cut_mid_entry (outs : List (List Src)) (h : anyFault outs = true) (n : Nat)
-    (hn : ((cmdWrite ⟨[], false⟩ outs).1.toks.take n) ≠ []) :
-    cmdRetrieve (cmdStored .naive outs n true true) true = .miss := by
-  have hf := httpWrite_fault false outs ⟨[], false⟩ h
-  simp only [cmdStored, cmdWrite] at hn ⊢
-  simp only [hf, if_true, cmdRetrieve]
-  cases hrev : (List.take n (httpWrite false ⟨[], false⟩ outs).1.toks).reverse with
-  | nil =>
-    exfalso
-    apply hn
-    have := congrArg List.reverse hrev
-    simpa using this
-  | cons t rest =>
-    simp only [readToks]
-    have : ((({ ent := t.ent, full := false } : Tok) :: rest).reverse.all (·.full)) = false := by
-      rw [List.all_eq_false]
-      exact ⟨⟨t.ent, false⟩, by simp, by simp⟩
-    simp [this]
+/-- … whereas everything else a `… > $CACHE_KEY` command can be left with after a read fault is a miss: a file cut
+    inside an entry, and a file that stops at an entry boundary before the end marker. -/
+theorem C13_cmd_naive_cut_is_miss (outs : List (List Src)) (n : Nat) (f c w : Bool)
+    (hcut : c = true ∨ n < (cmdWrite ⟨[], false⟩ outs).1.toks.length)
+    (hfault : (cmdWrite ⟨[], false⟩ outs).2 = true ∨ f = true) (m : Bool) :
+    cmdRetrieve (cmdStored .naive outs f n c m w) true = .miss := by
+  have hcond : ((cmdWrite ⟨[], false⟩ outs).2 || f) = true := by
+    rcases hfault with h | h <;> simp [h]
+  simp only [cmdStored, hcond, if_true]
+  cases c with
+  | true => simp [cmdRetrieve]
+  | false =>
+    rcases hcut with h | h
+    · cases h
+    · have : decide ((cmdWrite ⟨[], false⟩ outs).1.toks.length ≤ n) = false := by
+        simp; omega
+      simp [cmdRetrieve, this]
+
+/-- A store command that fails by itself never leaves a hit behind when it did not take in the whole archive:
+    commit-on-success commands leave nothing, the others a file without end marker. -/
+theorem C13_cmd_command_failure (k : CmdKind) (outs : List (List Src)) (n : Nat) (c m w b : Bool)
+    (hpart : c = true ∨ n < (cmdWrite ⟨[], false⟩ outs).1.toks.length) :
+    cmdRetrieve (cmdStored k outs true n c m w) b = .miss := by
+  cases b with
+  | false => cases h : cmdStored k outs true n c m w <;> simp [cmdRetrieve]
+  | true =>
+    cases k with
+    | atomic => simp [cmdStored, cmdRetrieve]
+    | naive => exact C13_cmd_naive_cut_is_miss outs n true c w hpart (Or.inr rfl) m
+
+-- non-vacuity of `C13_cmd_naive_cut_is_miss`: a, b arrived, b cut; and a, b arrived whole but no end marker; c had vanished
+example : (cmdWrite ⟨[], false⟩ [[.ok ⟨[97], 0, [1]⟩], [.ok ⟨[98], 0, [2]⟩], [.vanished ⟨[99], 0, [3]⟩]]).2 = true ∧
+    cmdRetrieve (cmdStored .naive [[.ok ⟨[97], 0, [1]⟩], [.ok ⟨[98], 0, [2]⟩], [.vanished ⟨[99], 0, [3]⟩]] false 2 true false true) true = .miss ∧
+    cmdRetrieve (cmdStored .naive [[.ok ⟨[97], 0, [1]⟩], [.ok ⟨[98], 0, [2]⟩], [.vanished ⟨[99], 0, [3]⟩]] false 2 false false true) true = .miss ∧
+    cmdRetrieve (cmdStored .naive [[.ok ⟨[97], 0, [1]⟩], [.ok ⟨[98], 0, [2]⟩], [.vanished ⟨[99], 0, [3]⟩]] false 1 false true true) true = .miss := by
+  decide
 
 end PlzVerif.Props.C13
